@@ -332,9 +332,13 @@ class Models:
         return self.list_of(I, a[0])
 
     def list_of(self, I, v):
+        if isinstance(v, VDictView):
+            return VDictView(v.d, v.kind, v.is_sorted)     # a snapshot of the view (the dict is value-semantic here)
         raise OutOfSubset('list(%r)' % (v,))
 
     def m_sorted(self, I, a, k):
+        if isinstance(a[0], VDictView) and not k:
+            return VDictView(a[0].d, a[0].kind, True)     # iteration order is not observed by the contracts
         raise OutOfSubset('sorted')
 
     def m_type(self, I, a):
@@ -773,6 +777,12 @@ class Models:
 
     def meth_VTuple_keys(self, I, t): return t
 
+    def meth_VDict_keys(self, I, d): return VDictView(d, 'keys')
+
+    def meth_VDict_values(self, I, d): return VDictView(d, 'values')
+
+    def meth_VDict_items(self, I, d): return VDictView(d, 'items')
+
     # dict
     def meth_VDict_get(self, I, d, key, default=None):
         k = I.coerce_key(d, key)
@@ -817,6 +827,13 @@ class Models:
         raise OutOfSubset('subscript of %r' % (obj,))
 
     def as_list(self, I, it):
+        if isinstance(it, VDictView):
+            ks = I.ctx.key_sequence(it.d)
+            l = VList(it.d.k, [ks], origin=('local',))
+            l.dictview = it
+            return l
+        if isinstance(it, VDict):
+            return self.as_list(I, VDictView(it, 'keys'))
         raise OutOfSubset('iteration over %r' % (it,))
 
     def dict_display(self, I, pairs):
@@ -869,7 +886,27 @@ class Models:
         return VTuple(out)
 
     def comprehension_symbolic(self, I, e):
-        raise OutOfSubset('comprehension over a symbolic sequence')
+        """[f(x) for x in <symbolic list>] (no filter): a fresh list of the same length whose j-th element
+        is f(src[j]) - the element relation is asserted at one arbitrary index j (skolem), i.e. for all."""
+        g = e.generators[0]
+        if g.ifs:
+            raise OutOfSubset('filtered comprehension over a symbolic sequence')
+        src = I.as_list(I.eval(g.iter))
+        ctx = I.ctx
+        j = ctx.fresh('cmp_j', IntSort)
+        ctx.assume(z3.And(j >= 0, j < src.length()))
+        I.assign(g.target, I.list_nth(src, j))
+        v = I.eval(e.elt)
+        try:
+            comps = v.T.comps()
+            terms = v.terms()
+        except (OutOfSubset, AttributeError):
+            raise OutOfSubset('comprehension element %r' % (v,))
+        seqs = [ctx.fresh('cmp_R', z3.SeqSort(so)) for s_, so in comps]
+        for q, t in zip(seqs, terms):
+            ctx.assume(z3.And(z3.Length(q) == src.length(), q[j] == t))
+        out = VList(v.T, seqs, origin=('local',))
+        return VGen(out) if isinstance(e, ast.GeneratorExp) else out
 
     def list_slice(self, I, l, lo, hi):
         """l[lo:] as a word equation  l == A.R, |A| = lo  (needs 0 <= lo <= len provable)."""
